@@ -146,8 +146,25 @@ def _seed_global_random(case):
     random.seed(int(casemod.digest(case)[:12], 16))
 
 
+def _watchdog(deadline):
+    """A shard that is still running long after its wall budget is a hung
+    harness (e.g. an actor blocked on a real lock): end it as a harness
+    error (exit 2) instead of hanging the check."""
+    import signal
+
+    def boom(signum, frame):
+        raise HarnessError('shard still running %ds after its wall budget'
+                           % 300)
+    try:
+        signal.signal(signal.SIGALRM, boom)
+        signal.alarm(int(max(deadline - time.time(), 0)) + 300)
+    except (ValueError, AttributeError):
+        pass
+
+
 def search_shard(args):
     pid, tier, seed, shard, nshards, deadline = args
+    _watchdog(deadline)
     try:
         return _search_shard(pid, tier, seed, shard, nshards, deadline)
     except BaseException:
